@@ -112,8 +112,11 @@ theorem packFinish_inv (info : CompId → CompInfo) (e : Handle) (isCreate : Boo
     -- the move
     have hmoved : RowsOK (packMoved info e isCreate initial sh w p).1 ∧
         KeysOK (packMoved info e isCreate initial sh w p).1 := by
+      rcases packTarget_cases e isCreate initial sh w p with ⟨hc, _, pi, hl, ht⟩ | hT
+      · subst hc; rw [packMoved_stay info e initial sh w p pi hl ht]; exact ⟨hok, hk⟩
       unfold packMoved
       simp only
+      rw [hT]
       have hokg := rowsOK_getArch hok p.final sh
       have hkg := keysOK_getArch hk p.final sh hfin
       have hlt := getArch_idx_lt w p.final sh
@@ -151,8 +154,8 @@ theorem packFinish_inv (info : CompId → CompInfo) (e : Handle) (isCreate : Boo
       (fun _ => ⟨id, id⟩) (fun _ _ _ h₁ h₂ => ⟨fun h => h₂.1 (h₁.1 h), fun h => h₂.2 (h₁.2 h)⟩)
       (fun ti idx a c v => packSetVal_inv ti idx a c v) info e isCreate initial sh w p
     have h2 := hloops.1
-    have h3 := hloops.2 ((packW2 info e isCreate initial sh w p).arch (w.getArch p.final sh).2).mask
-      (w.getArch p.final sh).2 ((packMoved info e isCreate initial sh w p).1.locOf e).idx
+    have h3 := hloops.2 ((packW2 info e isCreate initial sh w p).arch (packTarget e isCreate initial sh w p).2).mask
+      (packTarget e isCreate initial sh w p).2 ((packMoved info e isCreate initial sh w p).1.locOf e).idx
     exact ⟨h3.1 (h2.1 hmoved.1), h3.2 (h2.2 hmoved.2)⟩
 
 /-! ## the start -/
